@@ -232,6 +232,10 @@ inductive Stmt where
   /-- `y = x append a`: a "mutating-style" builtin called on the variable's value (by-value argument =
   clone of the handle, `Append::run2` = `make_mut` + push) -/
   | callAppend (y x : Nat) (a : Atom)
+  /-- `x[path] append= pop y[ypath]`: an operator-assignment whose right-hand side mutates (possibly
+  the same variable or an alias).  `Expr::OpAssign` reads the old left-hand value FIRST, then evaluates
+  the right-hand side, then nulls the slot, applies the operator and assigns. -/
+  | appendPop (x : Nat) (path : List Int) (y : Nat) (ypath : List Int)
   deriving Repr, Inhabited
 
 /-- interpreter state: the heap and one cell per variable -/
@@ -284,6 +288,21 @@ def withCell (s : State) (h : Heap) (x : Nat) (f : Heap → Val → WalkRes) : S
 
 def declared (s : State) (x : Nat) : Bool := x < s.cells.length
 
+/-- the second half of an operator-assignment `x[path] append= …`, entered with the old left-hand
+value `l` already read and the right-hand value `ev` already evaluated (both owned):
+`drop_lhs` (`set_index(ptr, ixs, None, true)`: the slot becomes null), the operator, the assignment.
+When the operator raises the slot stays null (documented). -/
+def appendFinish (s : State) (h : Heap) (x : Nat) (path : List Int) (l ev : Val) : State × Bool :=
+  let d := withCell s h x (fun h v => setIndex h v path .null)
+  if d.2.2 then
+    let ap := appendOp d.1.h l ev
+    match ap.2 with
+    | some c =>
+      let w := withCell d.1 ap.1 x (fun h v => setIndex h v path c)
+      (w.1, w.2.2)
+    | none => (⟨ap.1, d.1.cells⟩, false)
+  else (⟨drop (drop d.1.h l) ev, d.1.cells⟩, false)
+
 /-- one statement; the flag is `false` when the statement raised -/
 def step (s : State) : Stmt → State × Bool
   | .assign x r =>
@@ -304,18 +323,9 @@ def step (s : State) : Stmt → State × Bool
       match lv.2 with
       | none => (⟨lv.1, s.cells⟩, false)
       | some l =>
-        -- rhs
+        -- rhs, then drop_lhs / operator / assign
         let e := evalRhs ⟨lv.1, s.cells⟩ r
-        -- drop_lhs: set_index(ptr, ixs, None, true)
-        let d := withCell s e.1 x (fun h v => setIndex h v path .null)
-        if d.2.2 then
-          let ap := appendOp d.1.h l e.2
-          match ap.2 with
-          | some c =>
-            let w := withCell d.1 ap.1 x (fun h v => setIndex h v path c)
-            (w.1, w.2.2)
-          | none => (⟨ap.1, d.1.cells⟩, false)
-        else (⟨drop (drop d.1.h l) e.2, d.1.cells⟩, false)
+        appendFinish s e.1 x path l e.2
     else (s, false)
   | .pop y x path =>
     if declared s x ∧ declared s y then
@@ -365,6 +375,19 @@ def step (s : State) : Stmt → State × Bool
       match ap.2 with
       | some c => (writeCell ap.1 s.cells y c, true)
       | none => (⟨ap.1, s.cells⟩, false)
+    else (s, false)
+  | .appendPop x path y ypath =>
+    if declared s x ∧ declared s y then
+      -- lhs_value = eval_lvalue_as_obj (before the right-hand side runs)
+      let rd := readVar s x
+      let lv := readPath rd.1 rd.2 path
+      match lv.2 with
+      | none => (⟨lv.1, s.cells⟩, false)
+      | some l =>
+        -- rhs: pop y[ypath] mutates the cell of y
+        let w := withCell s lv.1 y (fun h v => walk popLeaf h v ypath)
+        if w.2.2 then appendFinish w.1 w.1.h x path l w.2.1
+        else (⟨drop w.1.h l, w.1.cells⟩, false)
     else (s, false)
 
 def run (s : State) : List Stmt → State
